@@ -224,6 +224,11 @@ def main():
     w("")
     w("def allKw : List Kw := [%s]" % ", ".join(".%s" % v for v in variants))
     w("")
+    w("/-- Rust variant names (what `{:?}` prints). -/")
+    w("def kwName : Kw → String")
+    for v in variants:
+        w("  | .%s => %s" % (v, lean_str(v)))
+    w("")
     w("/-- `impl Display for Token`, payload-free arms. -/")
     w("def kwSpelling : Kw → String")
     for v in variants:
